@@ -4,19 +4,20 @@ Open Scope nat_scope.
 
 (* Convergence, for the hub LTS over the concrete expression language (integer number ports, echo drivers / sources, no
    transforms): from any initial state without expressions, after ANY trace — any number of ports, any interleaving of
-   polling passes (one event per port read), evaluation-task steps, write completions, source changes and expression
-   assignments — every quiescent state has every port with an expression hold (at its driver and as reported value) the
-   coerced value of that expression over the current values; the property is silent when the expression has an error.
-   [refresh_after_write] is regenerated from core/ports.py on every run. *)
+   polling passes (one event per port read or skipped), evaluation-task steps, write completions, source changes,
+   expression assignments and enable / disable of ports at rest — every quiescent state has every enabled port with an
+   expression hold (at its driver and as reported value) the coerced value of that expression over the current values; the
+   property is silent when the expression has an error or reads a disabled port.
+   [refresh_after_write] and [enable_forces_all] are regenerated from core/ports.py on every run. *)
 Theorem C01_convergence :
   forall (pname : pid -> string) (ids : list pid) (now : Z) s0 tr s,
     pristine Z expr s0 ->
     run_wf Z veqb expr pyval (feval pname ids now) (deps pname ids) coerce s0 tr ->
-    run Z veqb expr pyval (feval pname ids now) (deps pname ids) coerce refresh_after_write s0 tr = Some s ->
+    run Z veqb expr pyval (feval pname ids now) (deps pname ids) coerce refresh_after_write enable_forces_all s0 tr = Some s ->
     quiescent Z veqb expr s ->
-    forall q, In q (all_ids s) -> follows Z veqb expr pyval (feval pname ids now) coerce s q.
+    forall q, In q (all_ids s) -> follows Z veqb expr pyval (feval pname ids now) (deps pname ids) coerce s q.
 Proof.
-  rewrite refresh_after_write_true. intros pname ids now.
+  rewrite refresh_after_write_true, enable_forces_all_true. intros pname ids now.
   exact (convergence Z veqb veqb_spec expr pyval (feval pname ids now) (deps pname ids) coerce (frame pname ids now)).
 Qed.
 Print Assumptions C01_convergence.
@@ -24,9 +25,9 @@ Print Assumptions C01_convergence.
 (* a port is re-evaluated after every change of a port it reads ... *)
 Theorem C01_reeval_on_dep_change :
   forall (pname : pid -> string) (ids : list pid) (now : Z) (s : state Z expr) chg q e d,
-    pass s = Some {| to_read := []; changed := chg |} -> In q (all_ids s) -> Hub.expr (Hub.ports s q) = Some e ->
-    In d (deps pname ids e) -> d <> q -> In d chg ->
-    exists s', step Z veqb expr pyval (feval pname ids now) (deps pname ids) coerce true s PassEnd = Some s'
+    pass s = Some {| to_read := []; changed := chg |} -> In q (all_ids s) -> en (Hub.ports s q) = true ->
+    Hub.expr (Hub.ports s q) = Some e -> In d (deps pname ids e) -> d <> q -> In d chg ->
+    exists s', step Z veqb expr pyval (feval pname ids now) (deps pname ids) coerce true true s PassEnd = Some s'
                /\ evq (Hub.ports s' q) = evq (Hub.ports s q) ++ [lasts Z expr s].
 Proof.
   intros pname ids now.
@@ -38,8 +39,8 @@ Print Assumptions C01_reeval_on_dep_change.
 Theorem C01_no_eval_without_dep_change :
   forall (pname : pid -> string) (ids : list pid) (now : Z) (s : state Z expr) chg q e,
     pass s = Some {| to_read := []; changed := chg |} -> In q (all_ids s) -> Hub.expr (Hub.ports s q) = Some e ->
-    forced (Hub.ports s q) = false -> (forall d, In d (deps pname ids e) -> d <> q -> ~ In d chg) ->
-    exists s', step Z veqb expr pyval (feval pname ids now) (deps pname ids) coerce true s PassEnd = Some s'
+    force_all s = false -> forced (Hub.ports s q) = false -> (forall d, In d (deps pname ids e) -> d <> q -> ~ In d chg) ->
+    exists s', step Z veqb expr pyval (feval pname ids now) (deps pname ids) coerce true true s PassEnd = Some s'
                /\ evq (Hub.ports s' q) = evq (Hub.ports s q).
 Proof.
   intros pname ids now.
